@@ -207,37 +207,49 @@ func canonBag(rows []any) string {
 // data by reflection and JSON round trip, and evaluating the text again on an equal input gives an equal result
 // (the sequence; the multiset for joins and groups).
 var texts12 = []struct {
-	sql string
-	bag bool
+	sql  string
+	bag  bool
+	open bool // an error is as good an answer as a plain result
 }{
-	{"SELECT a, (SELECT * FROM dual) AS x FROM t", false},
-	{"SELECT a, (SELECT * FROM (SELECT * FROM dual) d) AS x FROM t", false},
-	{"SELECT a, (SELECT *, 1 AS one FROM dual) AS x FROM t WHERE a > 1", false},
-	{"SELECT * FROM dual", false},
-	{"WITH c AS (SELECT a FROM t) SELECT * FROM dual", false},
-	{"WITH c AS (SELECT a FROM t) SELECT *, (SELECT COUNT(*) AS k FROM c) AS n FROM dual", false},
-	{"WITH c AS (SELECT a FROM t) SELECT (SELECT COUNT(*) AS k FROM c) AS n, * FROM dual", false},
-	{"WITH c AS (SELECT a FROM t) SELECT * FROM (SELECT * FROM dual) x", false},
-	{"WITH c AS (SELECT a FROM t), d AS (SELECT * FROM c) SELECT a, (SELECT * FROM dual) AS x FROM d", false},
-	{"SELECT (a, s) AS tup, (1, 2) FROM t", false},
-	{"SELECT *, 1 AS one FROM dual", false},
-	{"SELECT * FROM (SELECT a, ASYNC.CONCAT(s, '!') AS v FROM t) l JOIN (SELECT * FROM u) r ON l.a = r.c", true},
-	{"SELECT l FROM (SELECT a, ASYNC.CONCAT(s, '!') AS v FROM t) l JOIN (SELECT c, ASYNC.CONCAT(c, '!') AS w FROM u) r ON l.a = r.c", true},
-	{"SELECT * FROM (SELECT a, ASYNC.CONCAT(s, '!') AS v FROM t) l LEFT JOIN (SELECT c, (SELECT p FROM `<-.t[0].n`) AS ps FROM u) r ON l.a = r.c", true},
-	{"SELECT * FROM (SELECT a, ASYNC.CONCAT(s, '!') AS v, SPINASYNC.CONCAT(s, '?') AS w FROM t) l JOIN (SELECT *, ASYNC.CONCAT(c, '!') AS v FROM u) r ON l.a >= r.c", true},
-	{"SELECT * FROM (SELECT * FROM t) l JOIN (SELECT c, ASYNC.CONCAT(c, '!') AS w FROM u) r ON l.a = r.c", true},
-	{"SELECT r FROM (SELECT * FROM u) l RIGHT JOIN (SELECT a, ASYNC.CONCAT(s, '!') AS v FROM t) r ON l.c = r.a", true},
-	{"SELECT x.a, x.v FROM (SELECT a, ASYNC.CONCAT(s, '!') AS v FROM t) x", false},
-	{"SELECT * FROM (SELECT a, ASYNC.CONCAT(s, '!') AS v FROM t) x", false},
-	{"WITH c AS (SELECT a, ASYNC.CONCAT(s, '!') AS v FROM t) SELECT * FROM c l JOIN c r ON l.a = r.a", true},
-	{"SELECT a, ASYNC.CONCAT(s, '!') AS v FROM t UNION SELECT c, ASYNC.CONCAT(c, '!') FROM u", false},
-	{"SELECT FUSE(o) FROM t", false},
-	{"SELECT FUSE(o), a FROM t", false},
-	{"SELECT a, o AS p, o AS q, n AS m FROM t", false},
-	{"SELECT a, FIRST(n) AS f, LAST(n) AS l, ELEMENTAT(n, 0) AS e FROM t", false},
-	{"SELECT ARRAY(a, s, o, n) AS arr FROM t", false},
-	{"SELECT a, UNWIND(n) AS p FROM t", false},
-	{"SELECT g, COUNT(*) AS k, * FROM t GROUP BY g", true},
+	{"SELECT a, (SELECT * FROM dual) AS x FROM t", false, false},
+	{"SELECT a, (SELECT * FROM (SELECT * FROM dual) d) AS x FROM t", false, false},
+	{"SELECT a, (SELECT *, 1 AS one FROM dual) AS x FROM t WHERE a > 1", false, false},
+	{"SELECT * FROM dual", false, false},
+	{"WITH c AS (SELECT a FROM t) SELECT * FROM dual", false, false},
+	{"WITH c AS (SELECT a FROM t) SELECT *, (SELECT COUNT(*) AS k FROM c) AS n FROM dual", false, false},
+	{"WITH c AS (SELECT a FROM t) SELECT (SELECT COUNT(*) AS k FROM c) AS n, * FROM dual", false, false},
+	{"WITH c AS (SELECT a FROM t) SELECT * FROM (SELECT * FROM dual) x", false, false},
+	{"WITH c AS (SELECT a FROM t), d AS (SELECT * FROM c) SELECT a, (SELECT * FROM dual) AS x FROM d", false, false},
+	{"SELECT (a, s) AS tup, (1, 2) FROM t", false, false},
+	// numbers no document can hold: an error or a finite value, never +Inf / NaN
+	{"SELECT 1e308 * 10 AS v FROM t", false, true},
+	{"SELECT 1e308 + 1e308 AS v, a FROM t", false, true},
+	{"SELECT -1e308 - 1e308 AS v FROM t", false, true},
+	{"SELECT 1 / 1e-320 AS v FROM t", false, true},
+	{"SELECT ARRAY(1e308 * 10, a) AS v FROM t", false, true},
+	{"SELECT CHANGETYPE('NaN', 'double') AS v FROM t", false, true},
+	{"SELECT CHANGETYPE('Inf', 'double') AS v, CHANGETYPE('-Infinity', 'double') AS w FROM t", false, true},
+	{"SELECT SUM(big) AS s FROM u", false, true},
+	{"SELECT AVG(big) AS s, MAX(big) AS m FROM u", false, true},
+	{"SELECT a FROM t WHERE 1e308 * 10 > a", false, true},
+	{"SELECT *, 1 AS one FROM dual", false, false},
+	{"SELECT * FROM (SELECT a, ASYNC.CONCAT(s, '!') AS v FROM t) l JOIN (SELECT * FROM u) r ON l.a = r.c", true, false},
+	{"SELECT l FROM (SELECT a, ASYNC.CONCAT(s, '!') AS v FROM t) l JOIN (SELECT c, ASYNC.CONCAT(c, '!') AS w FROM u) r ON l.a = r.c", true, false},
+	{"SELECT * FROM (SELECT a, ASYNC.CONCAT(s, '!') AS v FROM t) l LEFT JOIN (SELECT c, (SELECT p FROM `<-.t[0].n`) AS ps FROM u) r ON l.a = r.c", true, false},
+	{"SELECT * FROM (SELECT a, ASYNC.CONCAT(s, '!') AS v, SPINASYNC.CONCAT(s, '?') AS w FROM t) l JOIN (SELECT *, ASYNC.CONCAT(c, '!') AS v FROM u) r ON l.a >= r.c", true, false},
+	{"SELECT * FROM (SELECT * FROM t) l JOIN (SELECT c, ASYNC.CONCAT(c, '!') AS w FROM u) r ON l.a = r.c", true, false},
+	{"SELECT r FROM (SELECT * FROM u) l RIGHT JOIN (SELECT a, ASYNC.CONCAT(s, '!') AS v FROM t) r ON l.c = r.a", true, false},
+	{"SELECT x.a, x.v FROM (SELECT a, ASYNC.CONCAT(s, '!') AS v FROM t) x", false, false},
+	{"SELECT * FROM (SELECT a, ASYNC.CONCAT(s, '!') AS v FROM t) x", false, false},
+	{"WITH c AS (SELECT a, ASYNC.CONCAT(s, '!') AS v FROM t) SELECT * FROM c l JOIN c r ON l.a = r.a", true, false},
+	{"SELECT a, ASYNC.CONCAT(s, '!') AS v FROM t UNION SELECT c, ASYNC.CONCAT(c, '!') FROM u", false, false},
+	{"SELECT FUSE(o) FROM t", false, false},
+	{"SELECT FUSE(o), a FROM t", false, false},
+	{"SELECT a, o AS p, o AS q, n AS m FROM t", false, false},
+	{"SELECT a, FIRST(n) AS f, LAST(n) AS l, ELEMENTAT(n, 0) AS e FROM t", false, false},
+	{"SELECT ARRAY(a, s, o, n) AS arr FROM t", false, false},
+	{"SELECT a, UNWIND(n) AS p FROM t", false, false},
+	{"SELECT g, COUNT(*) AS k, * FROM t GROUP BY g", true, false},
 }
 
 func doc12() map[string]any {
@@ -254,7 +266,7 @@ func doc12() map[string]any {
 			map[string]any{"a": 3.0, "g": 1.0, "s": "y", "o": map[string]any{"k": 2.0}, "n": n()},
 			map[string]any{"a": 3.0, "g": 0.0, "s": "x", "o": map[string]any{"k": 2.0}, "n": n(3)},
 		},
-		"u": []any{map[string]any{"c": 3.0}, map[string]any{"c": 1.0}},
+		"u": []any{map[string]any{"c": 3.0, "big": 1e308}, map[string]any{"c": 1.0, "big": 1.5e308}},
 	}
 }
 
@@ -279,7 +291,9 @@ func init() {
 					}
 					if first.Err != nil {
 						v.Nontrivial = false
-						v.Drift = fmt.Sprintf("statement text not accepted: %v", first.Err)
+						if !tc.open {
+							v.Drift = fmt.Sprintf("statement text not accepted: %v", first.Err)
+						}
 						return
 					}
 					if s := NotPlain(any(first.Rows)); s != "" {
